@@ -198,6 +198,7 @@ func unitOp(res *opResult, kind int, seed uint64) {
 					p2 := newOfKind(k)
 					e2b := vopUnmarshalTyped(p2, append([]byte(nil), g...))
 					e3 = vopUnmarshalTyped(pr, append([]byte(nil), g...))
+					res.reused++
 					if e2b == nil && e3 == nil {
 						o2, o3 = observe(p2), observe(pr)
 					} else {
